@@ -456,7 +456,10 @@ package raft
 // (r.snaps.index + t.threshold, r.configs.Committed -- both read at REQUEST time) are therefore not
 // observable in a postcondition; see C12.membership of doTakeSnapshot.
 //@ func (*Raft).onTakeSnapshot
-//@   props C09
+//@   props C09 C12 C19
+// what the snapshot goroutine is started with is observable (goarg): the minimum index the FSM must have
+// reached and the COMMITTED configuration as the label's membership (C12, C19)
+//@   ensures [C12+C19.request-arguments] old(r.snapTakenCh == nil) && old(r.snaps.index) + t.threshold < 18446744073709551616 ==> goarg(1, 1) == old(r.snaps.index) + t.threshold && goarg(1, 2) == old(r.configs.Committed)
 //@   requires r.storage != nil && r.snaps != nil && t.task != nil
 //@   modifies r.snapTakenCh, t.task.result, t.task.greplied
 //@   ensures [C09.single-snapshot] old(r.snapTakenCh) != nil ==> r.snapTakenCh == old(r.snapTakenCh) && istype(t.task.result, InProgressError) && t.task.greplied == old(t.task.greplied) + 1
